@@ -22,13 +22,18 @@ pub async fn declaration(
             let DocumentCursor { doc, context, .. } = cursor;
             if let Some(entry) = context {
                 match &entry {
-                    GlobalEntry::Type(t) => {
+                    GlobalEntry::Type(_) => {
                         // early return for int;
                         if &ident.value == "int" {
                             return Ok(None);
                         }
                         if let Some(entry) = doc.table.lookup(&ident.value) {
-                            let tokens = &doc.tokens[t.to_range()];
+                            // early return for default values
+                            if Entry::from(entry).is_default() {
+                                return Ok(None);
+                            }
+                            // the name's range is relative to the declaration of the entry itself
+                            let tokens = &doc.tokens[entry.to_range()];
                             return Ok(Some(Location {
                                 uri,
                                 range: as_pos_range(&entry.to_text_range(tokens), &doc.text),
@@ -130,10 +135,12 @@ pub async fn type_definition(
                                 Entry::Procedure(_) => { /* no type definition */ }
                                 Entry::Variable(v) | Entry::Parameter(v) => {
                                     if let Some(DataType::Array { creator, .. }) = &v.data_type {
-                                        let entry =
-                                            doc.table.lookup(creator).expect("Invalid creator");
-                                        match entry {
-                                            GlobalEntry::Type(t) => {
+                                        // An anonymous array type is created by the variable itself,
+                                        // there is no type declaration to go to.
+                                        if let Some(entry @ GlobalEntry::Type(t)) =
+                                            doc.table.lookup(creator)
+                                        {
+                                            if t.data_type == v.data_type {
                                                 return Ok(Some(Location {
                                                     uri,
                                                     range: as_pos_range(
@@ -144,7 +151,6 @@ pub async fn type_definition(
                                                     ),
                                                 }));
                                             }
-                                            _ => panic!("Creator must be a type"),
                                         }
                                     }
                                     /* cannot look up primitive types */
@@ -177,8 +183,13 @@ pub async fn implementation(
                             local_table: Some(&p.local_table),
                         };
                         if let Some(entry) = lookup_table.lookup(&ident.value) {
-                            let tokens = &doc.tokens[p.to_range()];
-                            if let Entry::Procedure(_) = entry {
+                            if let Entry::Procedure(target) = entry {
+                                // early return for default values
+                                if entry.is_default() {
+                                    return Ok(None);
+                                }
+                                // the name's range is relative to the target's own declaration
+                                let tokens = &doc.tokens[target.to_range()];
                                 return Ok(Some(Location {
                                     uri,
                                     range: as_pos_range(&entry.to_text_range(tokens), &doc.text),
